@@ -171,8 +171,30 @@ def query_script(g):
     for _ in range(r.randrange(4, 10)):
         if r.random() < 0.25:
             ops += g.data_op("c", [t], len(ops))[:1]
-        ops.append(read_op(g, t))
+        rd = read_op(g, t)
+        if rd.get("values") and r.random() < 0.2:
+            ops += shadow_items(g, t, rd)
+        ops.append(rd)
     return ops
+
+
+def shadow_items(g, t, op):
+    """items that own an attribute literally named like a value placeholder of the request, holding ANOTHER value of the
+    same type: the placeholder means what the request says, whatever an item stores under that name"""
+    r = g.r
+    out = []
+    for _ in range(r.randrange(1, 3)):
+        it = g.item_of(t)
+        for ph, v in op["values"].items():
+            if r.random() < 0.7:
+                if "S" in v: it[ph] = S(r.choice([x for x in gen.IDXVALS + gen.HASHES + gen.RANGES if x != v["S"]]))
+                elif "N" in v: it[ph] = N(r.choice([x for x in ["0", "5", "11", "1000"] if x != v["N"]]))
+        # the item should be among those the request looks at: same partition / same index key when that is a placeholder
+        for ph, v in op["values"].items():
+            for attr in ("h", "g"):
+                if ("%s = %s" % (attr, ph)) in (op.get("keycond") or ""): it[attr] = v
+        out.append(dict(op="put", client=op["client"], table=op["table"], item=it))
+    return out
 
 
 def view_reads(i, op):
@@ -355,6 +377,12 @@ def conditional_script(g):
             op = dict(op="update", key=g.key_of(t["schema"]), expr=ue, cond=e, names={**un, **nm}, values={**uv, **vs}, **base)
             if r.random() < 0.6: op["rvoccf"] = "ALL_OLD"
         else: op = dict(op="delete", key=g.key_of(t["schema"]), cond=e, names=nm, values=vs, return_old=r.random() < 0.5, **base)
+        if op.get("values") and r.random() < 0.15:
+            # the target item owns an attribute named like a value placeholder of the condition, with another value
+            tgt = dict(op.get("item") or op.get("key"))
+            sh = shadow_items(g, t, op)[0]
+            sh["item"].update({k: v for k, v in tgt.items() if k in ("h", "r")})
+            ops.append(sh)
         ops.append(op)
         if r.random() < 0.3: ops.append(dict(op="scan", **base))
     return ops
@@ -372,6 +400,25 @@ def nt_conditional(ops, obs):
 # ---------------- C08: failing requests ----------------
 def failing_script(g):
     r = g.r
+    if r.random() < 0.2:
+        # an index added after the data: items whose index key attribute has another type than the index declares stay
+        # out of it (backfill skips them); a later update that repairs or breaks such an item is all-or-nothing too
+        base = dict(client="c", table="tbl")
+        ops = [dict(op="create_table", client="c", table="tbl", hash=dict(name="h", type="S"), billing="PAY_PER_REQUEST", throughput=True)]
+        for h in r.sample(["a", "b", "c", "d"], r.randrange(2, 5)):
+            ops.append(dict(op="put", item={"h": S(h), "g": r.choice([N("7"), S("x"), S("y"), {"BOOL": True}]), "f": r.choice([S("p"), N("1")])}, **base))
+        ops.append(dict(op="update_table", attrs=[dict(name="g", type="S")], create=dict(name="gix", hash=dict(name="g"), throughput=True), **base))
+        if r.random() < 0.5:
+            ops.append(dict(op="update_table", attrs=[dict(name="f", type="S")], create=dict(name="fix", hash=dict(name="f"), throughput=True), **base))
+        for _ in range(r.randrange(3, 8)):
+            h = r.choice(["a", "b", "c", "d"])
+            e, vs = r.choice([("SET g = :s", {":s": S("z")}), ("SET g = :n", {":n": N("8")}), ("REMOVE g", {}), ("SET f = :s", {":s": S("q")}),
+                              ("SET g = :s, f = :n", {":s": S("z"), ":n": N("2")}), ("SET f = :n", {":n": N("3")}), ("SET v = :s", {":s": S("w")})])
+            ops.append(dict(op="update", key={"h": S(h)}, expr=e, names={}, values=vs, **base))
+            ops.append(dict(op="get", key={"h": S(h)}, **base))
+            if r.random() < 0.5: ops.append(dict(op="scan", index="gix", **base))
+        ops.append(dict(op="scan", **base))
+        return ops
     t, ops = g.create_ops("c", "tbl")
     ops += populate(g, t, nmin=1, nmax=5)
     base = dict(client="c", table="tbl")
@@ -423,6 +470,10 @@ def values_script(g):
             it[a] = g.value(3)
         ops.append(dict(op="put", client="c", table="tbl", item=it))
         ops.append(dict(op="get", client="c", table="tbl", key={"h": it["h"]}))
+        if r.random() < 0.3:
+            # an update of ANOTHER attribute, then the whole item is read again
+            ops.append(dict(op="update", client="c", table="tbl", key={"h": it["h"]}, expr="SET touched = :t", names={}, values={":t": S("yes")}))
+            ops.append(dict(op="get", client="c", table="tbl", key={"h": it["h"]}))
     ops.append(dict(op="scan", client="c", table="tbl"))
     ops.append(dict(op="query", client="c", table="tbl", keycond="h = :h", names={}, values={":h": S("k0")}))
     ops.append(dict(op="batch_get", client="c", requests={"tbl": [{"h": S("k0")}, {"h": S("k1")}]}))
@@ -467,7 +518,15 @@ def keys_script(g):
             else: k["zz"] = S("extra")
         return k
     base = dict(client="c", table="tbl")
-    for _ in range(r.randrange(8, 20)):
+    retype_at = r.randrange(2, 8) if r.random() < 0.35 else -1
+    for step in range(r.randrange(8, 20)):
+        if step == retype_at:
+            # the AddIndex helper declares every key attribute of the new index as a string: on a table whose own hash or
+            # range key is a number or a binary that would re-type the key, and is refused
+            an, at = r.choice([schema["hash"]] + ([schema["range"]] if schema["range"] else []))
+            ops.append(r.choice([dict(op="add_index", client="c", table="tbl", index="byg", hash="g", range=an),
+                                 dict(op="add_index", client="c", table="tbl", index="byk", hash=an, range=""),
+                                 dict(op="update_table", client="c", table="tbl", attrs=[dict(name=an, type=r.choice(["S", "N", "B"]))])]))
         q = r.random()
         if q < 0.4:
             it = key(exact=r.random() < 0.85); it["v"] = S(str(len(ops)))
@@ -530,6 +589,19 @@ def numkeys_script(g):
         ops.append(dict(op="put", client="c", table="tbl", item=it))
     for k in ks: ops.append(dict(op="get", client="c", table="tbl", key=key(k)))
     ops.append(dict(op="scan", client="c", table="tbl"))
+    if rng:
+        # range conditions on the number sort key, with no filter, both directions: the keys are stored in the order of
+        # their text (2, 3, 10 are filed as 10, 2, 3) but compared by value, so the matches need not be neighbours
+        for i, k in enumerate(["2", "3", "10", "25", "100"][:r.randrange(2, 6)]):
+            ops.append(dict(op="put", client="c", table="tbl", item={"h": S("p"), "r": N(k), "i": N("9%d" % i)}))
+        for _ in range(r.randrange(2, 5)):
+            c = r.choice(["r >= :a", "r > :a", "r < :a", "r <= :a", "r BETWEEN :a AND :b", "r = :a"])
+            vals = {":h": S("p"), ":a": N(r.choice(["3", "2", "10", "9", "1.0", "25"]))}
+            if ":b" in c: vals[":b"] = N(r.choice(["10", "30", "100", "9007199254740993"]))
+            q = dict(op="query", client="c", table="tbl", keycond="h = :h AND " + c, names={}, values=vals)
+            if r.random() < 0.5: q["forward"] = r.random() < 0.5
+            if r.random() < 0.3: q["limit"] = r.randrange(1, 4)
+            ops.append(q)
     ops.append(dict(op="delete", client="c", table="tbl", key=key(ks[0]), return_old=True))
     ops.append(dict(op="update", client="c", table="tbl", key=key(ks[1]), expr="SET v = :v", names={}, values={":v": S("u")}))
     ops.append(dict(op="scan", client="c", table="tbl"))
@@ -640,14 +712,22 @@ NATIVE_EXPRS = ["x = :y", "y = :x", "x  =  :y", " x = :y ", "x\t=\n:y", ":y = x"
                 "X = :y", "G = :v", "SET G = :v", "set g = :v", "H = :h",
                 # only space, tab, newline and carriage return separate words (the language's white space): a vertical tab,
                 # a form feed, NEL, a no-break space or an em space (UTF-8 bytes, one JSON character per byte) are part of the text
-                "x\x0b=\x0c:y", "x\u00c2\u00a0=\u00c2\u00a0:y", "g\u00e2\u0080\u0083= :v", "x\u00c2\u0085= :y", "x\r=\r:y"]
+                "x\x0b=\x0c:y", "x\u00c2\u00a0=\u00c2\u00a0:y", "g\u00e2\u0080\u0083= :v", "x\u00c2\u0085= :y", "x\r=\r:y",
+                # texts the built-in language can not read: only a registration gives them a meaning
+                "x matches :y", "g ~ :v", "custom rule 7", "x = :y AND"]
 
 
 def native_script(g):
     r = g.r
     ops = []
     tabs = ["tbl", "tb2"]
-    when_activate = r.choice(["before", "after", "never"])
+    # a few texts per script, so that registrations and uses meet: some texts and close variants of them (blanks, letter
+    # case, other white space), at least one that the built-in language can not read
+    base_texts = r.sample(NATIVE_EXPRS[:19], 2) + [r.choice(NATIVE_EXPRS[19:24])] + [r.choice(NATIVE_EXPRS[24:])]
+    texts = list(base_texts)
+    for e in base_texts[:2]:
+        texts.append(r.choice([e.replace(" ", "  "), " " + e + " ", e.replace(" ", "\t"), e.swapcase() if e.isascii() else e, e.replace(" ", "")]))
+    when_activate = r.choice(["before", "after", "before", "never"])
     if when_activate == "before": ops.append(dict(op="activate_native", client="c"))
     for name in tabs: ops.append(dict(op="add_table", client="c", table=name, hash="h", range=""))
     if r.random() < 0.2: ops.append(dict(op="set_interpreter", client="c"))
@@ -658,20 +738,29 @@ def native_script(g):
         tname = r.choice(tabs)
         if r.random() < 0.7:
             ops.append(dict(op="add_matcher", client="c", table=tname, kind=r.choice(["key", "filter", "conditional"]),
-                            expr=r.choice(NATIVE_EXPRS), id=nid, verdict=r.random() < 0.6))
+                            expr=r.choice(texts), id=nid, verdict=r.random() < 0.6))
         else:
-            ops.append(dict(op="add_updater", client="c", table=tname, expr=r.choice(NATIVE_EXPRS), id=nid, set={"u": S("n%d" % nid)}))
+            ops.append(dict(op="add_updater", client="c", table=tname, expr=r.choice(texts), id=nid, set={"u": S("n%d" % nid)}))
+    # reads of a table that is still empty: nothing is evaluated, only the check of the expressions can speak
+    vals_for = lambda e: {k: S(k[1:]) for k in [":y", ":x", ":v", ":h"] if k in e}
+    for _ in range(r.randrange(0, 3)):
+        e = r.choice(texts)
+        ops.append(r.choice([dict(op="scan", filter=e, names={}, values=vals_for(e), client="c", table=r.choice(tabs)),
+                             dict(op="query", keycond=e, names={}, values=vals_for(e), client="c", table=r.choice(tabs))]))
     for h in ["a", "b"]:
         for name in tabs:
             ops.append(dict(op="put", client="c", table=name, item={"h": S(h), "g": S(r.choice(["v", "w"])), "x": S("y")}))
-    vals_for = lambda e: {k: S(k[1:]) for k in [":y", ":x", ":v", ":h"] if k in e}
     for _ in range(r.randrange(5, 14)):
         tname = r.choice(tabs)
-        e = r.choice(NATIVE_EXPRS)
+        e = r.choice(texts)
         k = r.random()
         base = dict(client="c", table=tname)
         if k < 0.25: ops.append(dict(op="scan", filter=e, names={}, values=vals_for(e), **base))
-        elif k < 0.45: ops.append(dict(op="query", keycond=e, names={}, values=vals_for(e), **base))
+        elif k < 0.38: ops.append(dict(op="query", keycond=e, names={}, values=vals_for(e), **base))
+        elif k < 0.45:
+            # the same text (or another one) as key condition AND as filter of one Query: the two kinds are looked up separately
+            f = e if r.random() < 0.6 else r.choice(texts)
+            ops.append(dict(op="query", keycond=e, filter=f, names={}, values={**vals_for(e), **vals_for(f)}, **base))
         elif k < 0.6: ops.append(dict(op="put", item={"h": S(r.choice("ab")), "g": S("v")}, cond=e, names={}, values=vals_for(e), **base))
         elif k < 0.7: ops.append(dict(op="delete", key={"h": S(r.choice("ab"))}, cond=e, names={}, values=vals_for(e), **base))
         elif k < 0.95: ops.append(dict(op="update", key={"h": S(r.choice("abc"))}, expr=e, names={}, values=vals_for(e), **base))
